@@ -224,6 +224,7 @@ pub fn emit_enum(out: &mut Out, e: &EnumDecl, tags: &[String], variant_schema_ov
         let _ = writeln!(out.items, "{a}");
     }
     let _ = writeln!(out.items, "pub enum {name} {{");
+    let explicit_discriminants = e.variants.iter().all(|v| matches!(v.kind, VKind::Unit)) && refmodel::rng::fnv64_str(&format!("{name}/discriminants")) % 2 == 0;
     for v in &e.variants {
         if let Some(a) = inert(&format!("{name}/{}/pre", v.record.name)) {
             let _ = writeln!(out.items, "    {a}");
@@ -244,6 +245,12 @@ pub fn emit_enum(out: &mut Out, e: &EnumDecl, tags: &[String], variant_schema_ov
             let _ = writeln!(out.items, "    {a}");
         }
         match v.kind {
+            VKind::Unit if explicit_discriminants => {
+                // a field-less enum may give its variants numbers of their own: they mean nothing to the format, whose
+                // constructor index is the position in declaration (or name) order
+                let i = e.variants.iter().position(|w| w.record.name == v.record.name).unwrap_or(0) as i64;
+                let _ = writeln!(out.items, "    {} = {},", v.record.name, 100 - 7 * i);
+            }
             VKind::Unit => {
                 let _ = writeln!(out.items, "    {},", v.record.name);
             }
